@@ -222,6 +222,42 @@ theorem C12_cascade_removes_closure (fks : List FkDecl) (hco : CascadeOnly fks) 
     subst this
     exact ih (hp ▸ hq)
 
+theorem reach_of_rf (fks : List FkDecl) (db : Db) (t : Nat) (sel : Row → Bool) (v : Row)
+    (hv : v ∈ db t) (hs : sel v = true) {i : Nat} {r : Row} (h : RF fks db t v i r) : Reach fks db t sel i r := by
+  induction h with
+  | direct d c hd hp ha hc hr => exact .step t v d c (.root v hv hs) hd hp ha hc hr
+  | trans q qr d c _ hd hp ha hc hr ih => exact .step q qr d c ih hd hp ha hc hr
+
+/-- … and only rows of the closure are removed -/
+theorem C12_cascade_removes_only_closure (fks : List FkDecl) (hco : CascadeOnly fks) (fuel : Nat) (db db' : Db)
+    (t : Nat) (sel : Row → Bool) (hr : deleteWithFks fks fuel db t sel = .ok db') :
+    ∀ i r, r ∈ db i → r ∉ db' i → Reach fks db t sel i r := by
+  obtain ⟨_, a2⟩ := deleteVictims_only fks (fun t db v => checkRow fks fuel db t v)
+    (checkRow_spec2 fks hco fuel) t _ db db' hr
+  intro i r hin hout
+  rcases a2 i r hin hout with ⟨hi, hv⟩ | ⟨v, hv, hrf⟩
+  · subst hi
+    obtain ⟨h1, h2⟩ := List.mem_filter.mp hv
+    exact .root r h1 h2
+  · obtain ⟨h1, h2⟩ := List.mem_filter.mp hv
+    exact reach_of_rf fks db t sel v h1 h2 hrf
+
+/-- CASCADE removes exactly the transitive referencing closure: a row is in the database after an
+accepted DELETE iff it was there before and is not in the closure of the selected rows -/
+theorem C12_cascade_removes_exactly_closure (fks : List FkDecl) (hco : CascadeOnly fks) (fuel : Nat) (db db' : Db)
+    (t : Nat) (sel : Row → Bool) (h : DbInv fks db) (hu : ParentKeysUnique fks db)
+    (hr : deleteWithFks fks fuel db t sel = .ok db') :
+    ∀ i r, r ∈ db' i ↔ (r ∈ db i ∧ ¬ Reach fks db t sel i r) := by
+  intro i r
+  constructor
+  · intro hm
+    exact ⟨(C12_delete_cascade_preserves fks hco fuel db db' t sel h hr).2.1 i r hm,
+      fun hreach => C12_cascade_removes_closure fks hco fuel db db' t sel h hu hr i r hreach hm⟩
+  · intro ⟨hin, hnr⟩
+    apply Classical.byContradiction
+    intro hout
+    exact hnr (C12_cascade_removes_only_closure fks hco fuel db db' t sel hr i r hin hout)
+
 /-- ON UPDATE CASCADE: the referrers' key columns are rewritten to the new parent key and the
 invariant holds for every parent table that contains the updated row and keeps all rows with a
 different key.  (`hset`: writing a key into the key columns and reading it back gives that key —
